@@ -11,45 +11,54 @@ def sh(cmd, cwd=None, timeout=1800):
     r = subprocess.run(cmd, shell=True, cwd=cwd, env=env, capture_output=True, text=True, timeout=timeout)
     return r.returncode, (r.stdout + r.stderr)
 subprocess.run('git -C /repo worktree remove --force %s' % wt, shell=True, capture_output=True)
-rc, out = sh('git -C /repo worktree add -q --detach %s HEAD' % wt)
-assert rc == 0, out
 res = {'seed': sid, 'property': prop, 'ran': []}
+prev = '/verif/seeded/%s/meta.json' % sid
+RECHECK = os.environ.get('SEEDEVAL_RECHECK') == '1' and os.path.exists(prev)
+if RECHECK:  # confirmed earlier (same patch, same demo): only the checks are run again
+    old = json.load(open(prev))['confirmed']
+    for k in ('demo_without_change', 'builds', 'demo_with_change', 'baseline_missing'):
+        res[k] = old[k]
+    res['earlier_runs'] = old.get('earlier_runs', []) + [{'ran': old.get('ran'), 'detected': old.get('detected')}]
+else:
+    rc, out = sh('git -C /repo worktree add -q --detach %s HEAD' % wt)
+    assert rc == 0, out
 try:
-    demo_dst = os.path.join(wt, demodir, 'zz_seed_demo_test.go')
-    shutil.copy(demo, demo_dst)
-    names = []
-    for l in open(demo):
-        if l.startswith('func Test') and not l.startswith('func TestMain'):
-            names.append(l.split('(')[0][5:])
-    testname = '^(' + '|'.join(names) + ')$'  # every test of the demo file (a demo may start with a control test that passes either way)
-    rc0, out0 = sh('go test -vet=off -count=1 -run "%s" ./%s/' % (testname, demodir), cwd=wt)
-    res['demo_without_change'] = 'pass' if rc0 == 0 else 'FAIL'
-    rc, out = sh('git apply %s' % patch, cwd=wt)
-    assert rc == 0, 'patch does not apply: ' + out
-    rcb, outb = sh('go build ./... && go build -tags verif ./...', cwd=wt)
-    res['builds'] = rcb == 0
-    rc1, out1 = sh('go test -vet=off -count=1 -run "%s" ./%s/' % (testname, demodir), cwd=wt)
-    res['demo_with_change'] = 'pass' if rc1 == 0 else 'fail'
-    os.remove(demo_dst)
-    # baseline suite with the change
-    sh('go test -json -vet=off -count=1 ./... > /tmp/seedeval-%s.json' % sid, cwd=wt)
-    want = set(json.load(open('/verif/baseline_stable.json')))
-    passed = set()
-    def load(path):
-        for l in open(path):
-            try: e = json.loads(l)
-            except Exception: continue
-            if e.get('Action') == 'pass' and e.get('Test'):
-                passed.add(e['Package'] + '::' + e['Test'])
-    load('/tmp/seedeval-%s.json' % sid)
-    for attempt in range(2):
-        missing = sorted(want - passed)
-        if not missing: break
-        for pkg in sorted({m.split('::')[0] for m in missing}):
-            sh('go test -json -vet=off -count=1 -p 1 %s > /tmp/seedeval-%s-r.json' % (pkg, sid), cwd=wt)
-            load('/tmp/seedeval-%s-r.json' % sid)
-    res['baseline_missing'] = sorted(want - passed)
-    os.remove('/tmp/seedeval-%s.json' % sid)
+  if not RECHECK:
+      demo_dst = os.path.join(wt, demodir, 'zz_seed_demo_test.go')
+      shutil.copy(demo, demo_dst)
+      names = []
+      for l in open(demo):
+          if l.startswith('func Test') and not l.startswith('func TestMain'):
+              names.append(l.split('(')[0][5:])
+      testname = '^(' + '|'.join(names) + ')$'  # every test of the demo file (a demo may start with a control test that passes either way)
+      rc0, out0 = sh('go test -vet=off -count=1 -run "%s" ./%s/' % (testname, demodir), cwd=wt)
+      res['demo_without_change'] = 'pass' if rc0 == 0 else 'FAIL'
+      rc, out = sh('git apply %s' % patch, cwd=wt)
+      assert rc == 0, 'patch does not apply: ' + out
+      rcb, outb = sh('go build ./... && go build -tags verif ./...', cwd=wt)
+      res['builds'] = rcb == 0
+      rc1, out1 = sh('go test -vet=off -count=1 -run "%s" ./%s/' % (testname, demodir), cwd=wt)
+      res['demo_with_change'] = 'pass' if rc1 == 0 else 'fail'
+      os.remove(demo_dst)
+      # baseline suite with the change
+      sh('go test -json -vet=off -count=1 ./... > /tmp/seedeval-%s.json' % sid, cwd=wt)
+      want = set(json.load(open('/verif/baseline_stable.json')))
+      passed = set()
+      def load(path):
+          for l in open(path):
+              try: e = json.loads(l)
+              except Exception: continue
+              if e.get('Action') == 'pass' and e.get('Test'):
+                  passed.add(e['Package'] + '::' + e['Test'])
+      load('/tmp/seedeval-%s.json' % sid)
+      for attempt in range(2):
+          missing = sorted(want - passed)
+          if not missing: break
+          for pkg in sorted({m.split('::')[0] for m in missing}):
+              sh('go test -json -vet=off -count=1 -p 1 %s > /tmp/seedeval-%s-r.json' % (pkg, sid), cwd=wt)
+              load('/tmp/seedeval-%s-r.json' % sid)
+      res['baseline_missing'] = sorted(want - passed)
+      os.remove('/tmp/seedeval-%s.json' % sid)
 finally:
     subprocess.run('git -C /repo worktree remove --force %s' % wt, shell=True, capture_output=True)
 ok = res.get('builds') and res['demo_without_change'] == 'pass' and res['demo_with_change'] == 'fail' and not res['baseline_missing']
